@@ -39,9 +39,26 @@ func ruleErrorPathKeepsLine(r *Run, types_ []string) {
 		}
 		line := fn.Params[2]
 		w := &feWalker{Fn: fn}
+		ends := w.Run()
+		// the body may have moved into a helper the method delegates to: when no failing path is
+		// visible in the method itself, walk it with its same-package helpers followed
+		hasFail := func(es []*feEnd) bool {
+			for _, e := range es {
+				for _, f := range e.State.free {
+					if x, nn, ok := nilCheck(f.Cond); ok && isErrorType(x.Type()) && nn == f.Truth {
+						return true
+					}
+				}
+			}
+			return false
+		}
+		if !hasFail(ends) {
+			w = &feWalker{Fn: fn, Inline: inlineHelpers(fn), MaxPath: 20000}
+			ends = w.Run()
+		}
 		bad := false
 		nErr := 0
-		for _, e := range w.Run() {
+		for _, e := range ends {
 			if e.Cut || len(e.Results) != 2 {
 				continue
 			}
@@ -72,7 +89,7 @@ func ruleErrorPathKeepsLine(r *Run, types_ []string) {
 					bad = true
 					o.Fail(r.pos(e.Term.Pos()), "the stage failed but __error__ is not set on this path")
 				}
-				if e.Results[0].V != ssa.Value(line) {
+				if e.Results[0].V != ssa.Value(line) && unspill(e.Results[0].V) != ssa.Value(line) {
 					bad = true
 					o.Fail(r.pos(e.Term.Pos()), "the stage failed but returns %s instead of the unchanged input line", describe(e.Results[0].V, 0))
 				}
